@@ -353,6 +353,11 @@ class _MultiplicationFunctionMaker(_OperationFunctionMaker):
         first_func = self._first_operand.func(input_value)
         second_func = self._second_operand.func(input_value)
         second_jac = self._second_operand._jac(input_value)
+        if numpy.size(first_func) > 1 or numpy.size(second_func) > 1:
+            # Vector-valued operand:
+            # each row of a Jacobian is scaled by the matching output component.
+            first_func = numpy.reshape(first_func, (-1, 1))
+            second_func = numpy.reshape(second_func, (-1, 1))
 
         if self._operator == numpy.multiply:
             return first_jac * second_func + second_jac * first_func
